@@ -37,8 +37,8 @@ TInit == x \in 1..Len(Ix) /\ l = Ix[x].s /\ Init
 Op(name, A) == l <= Ix[x].e /\ E.op = name /\ A /\ PostOK /\ l' = l + 1 /\ UNCHANGED x
 TNext == \/ Op("Subscribe", Subscribe(E.h, E.sc)) \/ Op("UnsubH", UnsubH(E.h)) \/ Op("UnsubS", UnsubS(E.h))
          \/ Op("SubscribeMuted", SubscribeMuted(E.h, E.sc)) \/ Op("UnsubF", UnsubF(E.h))
-         \/ Op("Mute", Mute(E.h)) \/ Op("Unmute", Unmute(E.h)) \/ Op("Invalidate", Invalidate(E.h))
-         \/ Op("Swap", Swap(E.h, E.h2)) \/ Op("Notify", Notify(E.a))
+         \/ Op("Mute", Mute(E.h) \/ MuteAgain(E.h)) \/ Op("Unmute", Unmute(E.h) \/ UnmuteAgain(E.h)) \/ Op("Invalidate", Invalidate(E.h))
+         \/ Op("Drop", Drop(E.h)) \/ Op("Swap", Swap(E.h, E.h2)) \/ Op("Notify", Notify(E.a))
 TSpec == TInit /\ [][TNext]_<<vars, x, l>>
 Accepted == (l = Ix[x].e + 1) => PrintT(<<"ACCEPTED", x>>)
 Progress == Diag => PrintT(<<"AT", x, l>>)
